@@ -145,6 +145,21 @@ def main(tier, seed):
                 else:
                     script.append("get W %d" % r.randrange(length + 1))
             script += ["info W"] + ["get W %d" % i for i in range(length + 1)]
+            # requests a peer may send, valid or not (seek offsets inside and outside the requested sub-tree, arbitrary node
+            # counts), after reads that warmed the node cache differently per configuration: the ANSWER (proof, none or error)
+            # must not depend on what happens to be cached or flushed
+            if length:
+                total = 6 * length + 3
+                for _ in range(r.choice([3, 6, 10])):
+                    if r.random() < 0.5:
+                        script.append("get W %d" % r.randrange(length))
+                    b = "%d,%d" % (r.randrange(length), r.choice([0, 1, 2, 3]))
+                    h = "-" if r.random() < 0.8 else "%d,%d" % (r.randrange(2 * length), r.choice([0, 1]))
+                    sk = "-" if r.random() < 0.3 else str(r.randrange(total))
+                    up = "-" if r.random() < 0.7 else "0,%d" % length
+                    if h != "-" and r.random() < 0.5:
+                        b = "-"
+                    script.append("prove W %s %s %s %s" % (b, h, sk, up))
             # replication part: computed on the baseline (proof texts depend only on the history)
             base.cmd("reset"); base.cmd("disk D vec"); base.cmd("disk RD vec")
             for c in script:
